@@ -524,7 +524,20 @@ impl Engine for ApiEngine {
                 }
                 self.flush_sent(out);
             }
-            ["close-chan", ch] | ["drop-chan", ch] => {
+            // what a handle of channel CH submits as the content header for a body of LEN bytes (the
+            // real `IoLoopHandle::send_content_header`, length only - no body of that size is needed)
+            ["hdr-len", ch, len] => {
+                let (ch, len): (u16, u64) = match (ch.parse(), len.parse()) {
+                    (Ok(a), Ok(b)) => (a, b),
+                    _ => return out.push("bad-op".into()),
+                };
+                out.push("ok".into());
+                match amiquip::verif::content_header_submitted(ch, 60, len as usize) {
+                    Some(bs) => out.push(format!("sent {} send {}", ch, hex(&bs))),
+                    None => out.push("sent nothing".into()),
+                }
+            }
+            ["close-chan", ch] | ["drop-chan", ch] | ["drop-panic-chan", ch] => {
                 let id: u16 = match ch.parse() {
                     Ok(v) => v,
                     Err(_) => return out.push("bad-op".into()),
@@ -542,6 +555,13 @@ impl Engine for ApiEngine {
                         let chan = unsafe { Box::from_raw(raw) };
                         if toks[0] == "close-chan" {
                             out.push(ret_unit(chan.close()));
+                        } else if toks[0] == "drop-panic-chan" {
+                            // the channel goes out of scope because a panic unwinds through its owner
+                            let _ = catch_unwind(AssertUnwindSafe(move || {
+                                let _held = chan;
+                                std::panic::resume_unwind(Box::new("the channel's owner panics"));
+                            }));
+                            out.push("ret unit".into());
                         } else {
                             drop(chan);
                             out.push("ret unit".into());
